@@ -225,8 +225,16 @@ def generic_producers(facts, entries):
         def rng_stub(I, st, args):
             n = st.facts.get("nrng", 0)
             st.facts["nrng"] = n + 1
-            mm = re.search(r"Key::<(\d+)>::try_new_random", M.decode_typenum(getattr(I, "_cur_info", {}).get("name", "")))
-            st.events.append(("fresh_key", n, int(mm.group(1)) if mm else None))
+            nm_ = M.decode_typenum(getattr(I, "_cur_info", {}).get("name", ""))
+            mm = re.search(r"Key::<(\d+)>::try_new_random", nm_)
+            size = int(mm.group(1)) if mm else None
+            if size is None:
+                # drawn inside a helper that is generic in the size (`Key::<SIZE>::try_new_random()`): the value the helper was called with
+                mc = re.search(r"Key::<([A-Z][A-Z0-9_]*)>::try_new_random", nm_)
+                fr_ = getattr(I, "_cur_frame", None)
+                if mc and fr_ is not None and mc.group(1) in (fr_.consts or {}):
+                    size = fr_.consts[mc.group(1)]
+            st.events.append(("fresh_key", n, size))
             return _res_sym("rng_result%d" % n, A.Struct("crate::core::key::keys::Key", None, {"0": A.Seq("fresh%d" % n, A.Aff.sym("len(fresh%d)" % n), kind="array")}), A.Sym("PasetoError"))
 
         def core_stub(I, st, args):
@@ -299,6 +307,17 @@ def generic_producers(facts, entries):
                 okv = MD.deref(I, s, r.fields.get("0"))
                 if not (len(cores) == 1 and "core_result is Ok" in s.cond and isinstance(okv, A.Seq) and okv.name == "token_text"):
                     probs["plumb"].append("Ok(%r) is returned without being the core call's token" % (okv,))
+            elif isinstance(r, A.Struct) and r.variant == "Err":
+                # a build is refused only because the payload could not be serialised, no randomness was available or the core call failed:
+                # for every footer / assertion the caller may set (the empty ones included) a token exists
+                caused = any(c in ("payload_result is Err", "core_result is Err") or re.match(r"rng_result\d+ is Err$", c) for c in s.cond)
+                if not caused:
+                    msg = "the build is refused although the payload was built, randomness was available and the core call did not fail [%s]" % cond
+                    probs["plumb"].append(msg)
+                    if asome:
+                        probs["assertion"].append(msg)
+                    if fsome:
+                        probs["footer"].append(msg)
             for c in cores:
                 det, rest = c[1], c[2]
                 if det.get("payload") != "payload_json":
@@ -343,6 +362,9 @@ def generic_producers(facts, entries):
         if P == "Local":
             for r2 in ("C10.R4", "C10.R1"):
                 _f(fs, r2, not probs["nonce"], e.id, "fresh nonce per build" if not probs["nonce"] else probs["nonce"][0][:80], "; ".join(sorted(set(probs["nonce"])))[:400], b["line"], v.file(), desc="%s: nonce = one fresh Key::try_new_random() per build" % lab)
+        pay = [x for x in probs["plumb"] if "payload" in x]
+        _f(fs, "C14.R6", not pay, e.id, "payload handed on as built" if not pay else pay[0][:80], "; ".join(sorted(set(pay)))[:400], b["line"], v.file(),
+           desc="%s: the core builder's payload is the text build_payload_from_claims returned, nothing applied to it in between" % lab)
         _f(fs, "C13.R5", not probs["state"], e.id, "build keeps the builder's state" if not probs["state"] else probs["state"][0][:80], "; ".join(sorted(set(probs["state"])))[:400], b["line"], v.file(), desc="%s: builder state untouched" % lab)
         out[e.id] = fs, None
     return out
